@@ -186,7 +186,7 @@ def twin_float(ctx, sc, clause_prefix, tol_scale=64.0):
         _, xf = G.run_scenario(scf, keep_raw=True)
     except (G.NotObservable, G.ConstructError, Unrepresentable):
         ctx.skip("float twin runs whose state could not be projected / constructed")
-        return [], {"raws": [], "env": None}, {"raws": [], "env": None}
+        return [], {"raws": [], "env": None, "max_loss": 0.0}, {"raws": [], "env": None, "max_loss": 0.0}
     probs = []
     eps = 2.0 ** -52
     for i, (re_, rf) in enumerate(zip(xe["raws"], xf["raws"])):
@@ -194,8 +194,12 @@ def twin_float(ctx, sc, clause_prefix, tol_scale=64.0):
         for k in ("imp", "var"):
             for v in re_[k].values():
                 mag = max(mag, abs(float(v)))
-        mag = max(mag, abs(float(re_["ml"])), abs(float(re_["mo"])))
+        # contributions are differences of loss values: the rounding error scales with the largest loss (squared for the
+        # variances), not with the size of the resulting importance values
+        ml_ = max(float(xe.get("max_loss", 0.0)), float(xf.get("max_loss", 0.0)))
+        mag = max(mag, abs(float(re_["ml"])), abs(float(re_["mo"])), ml_)
         tol = tol_scale * eps * (i + 2) * mag * 1e4
+        tol_var = tol_scale * eps * (i + 2) * max(mag, ml_ * ml_) * 1e4
         for k in ("imp", "var"):
             if set(map(str, re_[k])) != set(map(str, rf[k])):
                 probs.append("call %d: %s keys differ" % (i + 1, k))
@@ -203,8 +207,9 @@ def twin_float(ctx, sc, clause_prefix, tol_scale=64.0):
             fm = {str(a): b for a, b in rf[k].items()}
             for name, v in re_[k].items():
                 fv = float(fm[str(name)])
-                if not math.isfinite(fv) or abs(fv - float(v)) > tol:
-                    probs.append("call %d: %s[%s] float %r vs exact %r (tol %g)" % (i + 1, k, name, fv, float(v), tol))
+                tk = tol_var if k == "var" else tol
+                if not math.isfinite(fv) or abs(fv - float(v)) > tk:
+                    probs.append("call %d: %s[%s] float %r vs exact %r (tol %g)" % (i + 1, k, name, fv, float(v), tk))
         for k in ("ml", "mo"):
             fv = float(rf[k])
             if not math.isfinite(fv) or abs(fv - float(re_[k])) > tol:
